@@ -31,6 +31,9 @@ def main():
     if a.what == "setup":
         from vf import setup
         return setup.run()
+    if a.what == "extras":
+        from vf import extras
+        return extras.run(a.tier, seed)
     if a.what == "selftest":
         from vf import selftest
         return selftest.run(a.tier, seed)
